@@ -56,11 +56,15 @@ Terminates == <>ADone
 Methods == {"GET", "POST", "PUT", "PATCH", "DELETE", "HEAD", "OPTIONS"}
 \* generate spec -i <input>: no input; an input with unrelated paths and definitions; an input that already
 \* declares the annotated operation (same path, method and id), to which the annotations add their parameters
-MergeModes == {"none", "unrelated", "same_op"}
+\* self: the document produced by a first scan is given back as input of a second one (idempotence: nothing
+\* is duplicated, the result is still valid and still contains everything)
+MergeModes == {"none", "unrelated", "same_op", "self"}
 PathsM  == {"/pets", "/pets/{id}"}
 TagSets == {<<>>, <<"pets">>, <<"pets", "users">>}
 RespMaps == {"none", "default_only", "ok_and_default", "three"}
-Blocks  == {"consumes", "produces", "schemes", "deprecated", "security", "summary"}
+\* inline_params: a `Parameters:` block inside the swagger:route comment (+ name: ... in: ... type: ...)
+Blocks  == {"consumes", "produces", "schemes", "deprecated", "security", "summary", "inline_params"}
+InlineParam == [name |-> "ilimit", loc |-> "query", type |-> "integer", format |-> "int32", required |-> FALSE]
 ParamKinds == {"q_string", "q_int_bounds", "q_strings_items", "path_int", "header_str_len", "body_model", "form_bool", "q_required"}
 Spellings == {"long", "short"}          \* "Minimum: 1" vs "min: 1", "Required:" vs "required:"
 
@@ -93,7 +97,7 @@ ExpectedOp(o) ==
    produces |-> IF "produces" \in o.blocks THEN <<"application/json">> ELSE <<>>,
    schemes  |-> IF "schemes" \in o.blocks THEN <<"http", "https">> ELSE <<>>,
    deprecated |-> "deprecated" \in o.blocks,
-   params |-> {ParamOf(k) : k \in o.params}]
+   params |-> {ParamOf(k) : k \in o.params} \cup (IF "inline_params" \in o.blocks THEN {InlineParam} ELSE {})]
 
 \* model menu
 ModelKinds == {"plain", "validated", "allof", "strfmt", "ignored_field", "enum", "nested", "named_like_response"}
